@@ -18,7 +18,6 @@ import (
 	"math/big"
 	"net"
 	"os"
-	"runtime"
 	"strings"
 	"testing"
 	"time"
@@ -119,7 +118,7 @@ func (s c11Source) Certificates() chan []tls.Certificate    { return s.ch }
 
 func TestVerifC11Select(t *testing.T) {
 	L := ev.Begin("C11", "c11-select", "exploration",
-		"every ordered list of 1..3 certificates from 6 generated leafs (CN only, SAN only, CN+SANs, wildcard, unrelated) x 10 requested server names (absent, exact, upper case, trailing dot, single-label wildcard match, two labels deep, unrelated) x strict/non-strict, through getCertificate on the built store and through a real in-memory TLS handshake against cert.TLSConfig; oracle: exact -> single-label wildcard -> first / none. non-trivial = set with >=2 certificates")
+		"every ordered list of 1..3 certificates from 8 generated leafs (CN only, SAN only, CN repeated in SANs, CN beside other SANs, wildcard CN / SAN, unrelated) x 13 requested server names (absent, exact, upper case, trailing dot, single-label wildcard match, two labels deep, unrelated) x strict/non-strict, through getCertificate on the built store and through a real in-memory TLS handshake against cert.TLSConfig; oracle: exact -> single-label wildcard -> first / none. non-trivial = set with >=2 certificates")
 	pool := []c11Cert{
 		c11Make("c-foo", "foo.com"),
 		c11Make("c-wild", "", "*.foo.com"),
@@ -127,8 +126,10 @@ func TestVerifC11Select(t *testing.T) {
 		c11Make("c-bar", "bar.org", "bar.org", "www.bar.org"),
 		c11Make("c-cnonly", "cn.only.example"),
 		c11Make("c-wildbar", "*.bar.org", "*.bar.org"),
+		c11Make("c-cn+san", "cn.mixed.example", "san.mixed.example"), // the common name is not repeated among the SANs
+		c11Make("c-wildcn+san", "*.wcn.example", "plain.wcn.example"),
 	}
-	names := []string{"", "foo.com", "FOO.COM", "foo.com.", "a.foo.com", "x.foo.com", "x.y.foo.com", "other.net", "www.bar.org", "cn.only.example"}
+	names := []string{"", "foo.com", "FOO.COM", "foo.com.", "a.foo.com", "x.foo.com", "x.y.foo.com", "other.net", "www.bar.org", "cn.only.example", "cn.mixed.example", "san.mixed.example", "x.wcn.example"}
 	var sets [][]int
 	var rec func(cur []int)
 	rec = func(cur []int) {
@@ -168,24 +169,16 @@ func TestVerifC11Select(t *testing.T) {
 			var cfg *tls.Config
 			doHS := si%7 == 0 || ev.Thorough()
 			if doHS {
-				src := c11Source{make(chan []tls.Certificate, 1)}
+				src := c11Source{make(chan []tls.Certificate)}
 				var err error
 				cfg, err = TLSConfig(src, strict, 0, 0, nil)
 				if err != nil {
 					panic(err)
 				}
+				// the set is applied once the unbuffered channel accepted it a second time (the
+				// consumer came back for more); asking the store would make the barrier depend on the answer under test
 				src.ch <- certs
-				// wait (causally) until the set is visible
-				for i := 0; ; i++ {
-					c, _ := cfg.GetCertificate(&tls.ClientHelloInfo{ServerName: set[0].names()[0]})
-					if c != nil {
-						break
-					}
-					runtime.Gosched()
-					if i > 1e7 {
-						panic("VERIF-INFRA: certificate set never became visible")
-					}
-				}
+				src.ch <- certs
 				close(src.ch)
 			}
 			for _, n := range names {
@@ -255,6 +248,92 @@ func TestVerifC11Select(t *testing.T) {
 		}
 	}
 	L.Set("real_handshakes", handshakes)
+	L.End(true)
+}
+
+// ---- histories of published sets through the real TLSConfig ----
+
+func TestVerifC11Publish(t *testing.T) {
+	L := ev.Begin("C11", "c11-publish", "model_checking",
+		"every history (length <= 3, thorough 4) of sets published by a certificate source over {[A,B], [B,A], [A], [B,C], [C,B,A], []} (same certificates in another order included) through the real cert.TLSConfig (source channel -> store goroutine -> GetCertificate); a publish is known to be applied once the unbuffered source channel accepted the same set a second time. After every publish GetCertificate is asked for {no name, a name of A, of B, of C, an unknown name}, strict and non-strict. oracle: the answer is the one c11Select gives on the most recently published set alone (an empty set: no certificate). non-trivial = history whose last two sets hold the same certificates in different order or differ in the first certificate")
+	a, b, c := c11Make("A", "a.example"), c11Make("B", "b.example"), c11Make("C", "c.example")
+	sets := [][]c11Cert{{a, b}, {b, a}, {a}, {b, c}, {c, b, a}, {}}
+	label := func(s []c11Cert) string {
+		var l []string
+		for _, x := range s {
+			l = append(l, x.label)
+		}
+		return "[" + strings.Join(l, ",") + "]"
+	}
+	N := 3
+	if ev.Thorough() {
+		N = 4
+	}
+	var hist [][]int
+	var rec func(cur []int)
+	rec = func(cur []int) {
+		if len(cur) > 0 {
+			hist = append(hist, append([]int{}, cur...))
+		}
+		if len(cur) == N {
+			return
+		}
+		for i := range sets {
+			rec(append(cur, i))
+		}
+	}
+	rec(nil)
+	states := map[string]bool{}
+	var transitions int64
+	for _, strict := range []bool{false, true} {
+		for _, h := range hist {
+			src := c11Source{make(chan []tls.Certificate)}
+			cfg, err := TLSConfig(src, strict, 0, 0, nil)
+			if err != nil {
+				panic(err)
+			}
+			var names []string
+			for step, si := range h {
+				set := sets[si]
+				names = append(names, label(set))
+				var certs []tls.Certificate
+				for _, x := range set {
+					certs = append(certs, x.tls)
+				}
+				src.ch <- certs
+				src.ch <- certs // accepted only after the first one was applied
+				transitions++
+				states[label(set)] = true
+				if step != len(h)-1 {
+					continue
+				}
+				for _, n := range []string{"", "a.example", "b.example", "c.example", "other.example"} {
+					L.Case()
+					want := c11Select(set, n, strict)
+					wantL := "<none>"
+					if want >= 0 {
+						wantL = set[want].label
+					}
+					got, gerr := cfg.GetCertificate(&tls.ClientHelloInfo{ServerName: n})
+					d := map[string]interface{}{"published": append([]string{}, names...), "server_name": n, "strict": strict, "got": c11Leaf(got), "want": wantL, "err": fmt.Sprint(gerr)}
+					if len(h) >= 2 {
+						L.NontrivialKey(fmt.Sprint(h, strict))
+					}
+					L.Outcome(c11Leaf(got))
+					if len(h) == N && h[0] == 0 && h[1] == 1 && n == "" {
+						L.Sample(d)
+					}
+					if c11Leaf(got) != wantL {
+						L.Violation("answer-not-from-the-most-recently-published-set", d)
+					}
+				}
+			}
+			close(src.ch)
+		}
+	}
+	L.AddStates(int64(len(states)))
+	L.AddTransitions(transitions)
+	L.AddTraces(int64(2 * len(hist)))
 	L.End(true)
 }
 
